@@ -29,6 +29,10 @@ pub struct Scenario {
     /// other valid members (same bits / ext) verified together with the subject
     pub batch_others: Vec<Member>,
     pub batch_position: usize,
+    /// the prover's transcript object first goes through a proving attempt that fails (a witness
+    /// that does not open the commitment) and is then reused for the honest attempt
+    #[serde(default)]
+    pub failed_attempt_first: bool,
 }
 
 pub struct C01;
@@ -90,7 +94,23 @@ fn run<G: Group>(sc: &Scenario, st: &mut RunStats) -> Vec<Violation> {
     }
     st.probe(&format!("ext_{}", cfg.ext));
     st.probe(&format!("bits_{}", cfg.bits));
-    let (res, frng) = prove_mode::<G>(&sc.ctx, &built.statement, &built.witness, &sc.rng_mode);
+    let (res, frng) = if sc.failed_attempt_first {
+        let mut wrong = sc.wit.clone();
+        wrong.blind_seed = wrong.blind_seed.wrapping_add(1);
+        wrong.zero_blind.clear();
+        let bad = build::<G>(cfg, &wrong);
+        let mut t = sc.ctx.transcript();
+        let mut r0 = crate::faultrng::FaultRng::new(RngMode::Healthy(3));
+        let first = guarded(|| G::prove(&mut t, &built.statement, &bad.witness, &mut r0));
+        if matches!(first, Ok(Err(_))) {
+            st.fault("failed_attempt_on_the_same_transcript_first");
+        }
+        let mut fr = crate::faultrng::FaultRng::new(sc.rng_mode.clone());
+        let r = guarded(|| G::prove(&mut t, &built.statement, &built.witness, &mut fr));
+        (r, fr)
+    } else {
+        prove_mode::<G>(&sc.ctx, &built.statement, &built.witness, &sc.rng_mode)
+    };
     if sc.rng_mode.is_faulty() {
         st.fault(&format!("rng_{}", sc.rng_mode.kind()));
     }
@@ -307,6 +327,7 @@ impl Check for C01 {
             rng_mode,
             batch_others,
             batch_position,
+            failed_attempt_first: rng.chance(1, 8),
         }
     }
 
@@ -333,6 +354,11 @@ impl Check for C01 {
         if sc.group != "free" {
             let mut s = sc.clone();
             s.group = "free".into();
+            v.push(s);
+        }
+        if sc.failed_attempt_first {
+            let mut s = sc.clone();
+            s.failed_attempt_first = false;
             v.push(s);
         }
         if sc.rng_mode.is_faulty() {
@@ -408,7 +434,7 @@ impl Check for C01 {
             "capacity_gt_m", "m_ge_8", "zero_round_proof", "bits_64", "seed_present", "promise_eq_value",
             "value_max", "value_zero", "ext_1", "ext_2", "ext_3", "ext_4", "ext_5", "ext_6", "bits_1", "bits_2",
             "bits_4", "bits_8", "bits_16", "bits_32", "rng_all_zero", "rng_all_ones", "rng_constant_byte",
-            "rng_short_period", "rng_counter", "rng_stuck_after", "rng_replay", "rng_zero_block_at", "rng_repeat_block_at", "batch_context", "byte_round_trip_verified",
+            "rng_short_period", "rng_counter", "rng_stuck_after", "rng_replay", "rng_zero_block_at", "rng_repeat_block_at", "batch_context", "byte_round_trip_verified", "failed_attempt_on_the_same_transcript_first",
         ];
         if tier == Tier::Thorough {
             v.push("bits_64");
